@@ -19,7 +19,18 @@ shared block models; proofs Proofs/Merge*.v).
     are recoded to one fresh category), re-tabulated, analysed WITHOUT that dimension's
     insertions and the merged category's vector is compared with the subtotal's vector for
     counts, bases, proportions, standard errors, MoE, z-scores, p-values, pairwise t / p,
-    scale means, population estimates, sums and shares of sum.
+    scale means, population estimates, sums and shares of sum, and (subtotal columns) pairwise_indices.
+    Squared-weight stream (seeded change C04-9, which moved the effective column base
+    (sum w)^2 / sum w^2 of the pairwise column tests into a measure whose block assembly SUMS the
+    addends' effective bases for an inserted column): the main stream never put `weighted_squared_count`
+    into a response, so the pairwise tests always ran on the unweighted base and the merge oracle never
+    saw the effective-base path.  Added class: weighted CAT|MR x CAT surveys whose response carries the
+    squared weights (c13_util.add_squared_weights, also on the merged survey), each column's respondents
+    weighted from a palette of its own (the addends differ in sum w / sum w^2, so the effective base is
+    visibly not additive), sum-only subtotals on the columns; the oracle reads pairwise_significance_t_stats
+    / _p_vals with the subtotal column selected and with it tested against every body column, and
+    pairwise_indices in both roles (modern accessors only: the legacy columns_squared_base is covered by
+    finding C13-legacy-squared-base-first-row-mr).
 (c) Property rules checked on the implementation alone: NaN measures, count of a difference in
     a response with valid counts, categorical-date several-term differences.
 """
@@ -35,6 +46,7 @@ from harness import core, gen, impl
 from harness.core import g_bool, g_list, g_mat, g_nat, g_vec, g_Z, g_str
 from harness.props import common_cases as cc
 from harness.props import cube_util as cu
+from harness.props import c13_util as c13u
 
 PID = "C04"
 IMPORTS = """From Coq Require Import QArith ZArith List Bool String.
@@ -235,6 +247,60 @@ def gen_case(rng, k):
     return case
 
 
+# per-column weight palettes of the squared-weight stream (dyadic, so every sum is exact in a double):
+# sum w / sum w^2 of a column is 1/w for a constant weight w and moves with the spread otherwise, so
+# two columns that draw from different palettes have different ratios
+SQ_PALETTES = [
+    [Fraction(1, 4)], [Fraction(1, 2)], [Fraction(1)], [Fraction(2)], [Fraction(1, 4), Fraction(1, 2)],
+    [Fraction(1, 2), Fraction(1), Fraction(6)], [Fraction(1, 4), Fraction(8)], [Fraction(1), Fraction(3, 2), Fraction(2)],
+    [Fraction(1, 8), Fraction(1, 4), Fraction(4)], [Fraction(0), Fraction(1), Fraction(5)],
+]
+
+
+def sum_only_insertions(rng, v, n_max=2):
+    """1..n_max subtotals WITHOUT subtrahends over 2-3 valid categories of v (anchors / spellings vary)."""
+    valid = gen.valid_cat_ids(v)
+    out = []
+    if len(valid) < 2:
+        return out
+    for k in range(rng.randint(1, n_max)):
+        pos = rng.sample(valid, rng.randint(2, min(3, len(valid))))
+        anchor = rng.choice(["top", "bottom", rng.choice(valid), rng.choice(valid)])
+        d = {"function": "subtotal", "name": "%s_sum%d" % (v.alias, k), "anchor": anchor}
+        if rng.random() < 0.5:
+            d["args"] = pos
+        else:
+            d["kwargs"] = {"positive": pos}
+        if rng.random() < 0.6:
+            d["id"] = k + 1
+        out.append(d)
+    return out
+
+
+def gen_sq_case(rng, k):
+    """Squared-weight stream (seeded change C04-9): a WEIGHTED CAT x CAT / MR x CAT survey whose response
+    also carries `weighted_squared_count` (the pairwise column tests then run on the effective base
+    (sum w)^2 / sum w^2, which is not additive over the addends), sum-only subtotals on the COLUMNS,
+    the respondents of each column weighted from that column's own palette."""
+    rowv = gen.make_cat(rng, "rowv", n_valid=rng.randint(2, 3), numeric="partial") if rng.random() < 0.7 \
+        else gen.make_mr(rng, "rowv", n_items=rng.randint(2, 3))
+    colv = gen.make_cat(rng, "colv", n_valid=rng.randint(3, 5), numeric="partial")
+    sv = gen.Survey([rowv, colv], rng.choice([24, 40, 60, 80]), rng, weighted=True)
+    palettes = [rng.choice(SQ_PALETTES) for _ in colv.cats]
+    if rng.random() < 0.85:
+        # no two columns share a palette
+        palettes = rng.sample(SQ_PALETTES, len(colv.cats))
+    for r in sv.resp:
+        r["w"] = rng.choice(palettes[r["ans"]["colv"]])
+    ins = {}
+    lst = sum_only_insertions(rng, colv)
+    ins["colv"] = {"view": lst, "transforms": None} if rng.random() < 0.6 else {"view": None, "transforms": lst}
+    if rowv.kind == "cat" and rng.random() < 0.4:
+        ins["rowv"] = {"view": sum_only_insertions(rng, rowv, n_max=1), "transforms": None}
+    return {"k": k, "survey": cu.survey_to_json(sv), "aliases": ["rowv", "colv"], "ins": ins,
+            "measures": ["count"], "numvar": None, "valid_counts": False, "squared": True}
+
+
 def replayable(case):
     return {k: v for k, v in case.items() if not k.startswith("_")}
 
@@ -266,6 +332,9 @@ def build(case, sv=None, drop_ins=()):
             transforms.setdefault(DIMKEYS[axis], {})["insertions"] = copy.deepcopy(spec["transforms"])
     resp = gen.cube_response(sv, case["aliases"], measures=tuple(case["measures"]),
                              numvar=case["numvar"], valid_counts=case["valid_counts"])
+    if case.get("squared"):
+        # sum of w^2 per cell, tabulated from the (possibly merged) survey like the weighted count
+        c13u.add_squared_weights(resp, sv, case["aliases"])
     return sv, resp, (transforms or None)
 
 
@@ -783,6 +852,91 @@ def z_shortcut(p):
         return None
 
 
+ALPHA = 0.05      # the default threshold (no case of this check carries transforms.pairwise_indices)
+
+
+def addend_ratios_differ(sv, alias, positions):
+    """Do the addend categories of a subtotal have different sum w / sum w^2 (coverage statistics)?"""
+    ratios = set()
+    for pos in positions:
+        ws = [r["w"] for r in sv.resp if r["ans"][alias] == pos]
+        s2 = sum(w * w for w in ws)
+        if s2:
+            ratios.add(sum(ws) / s2)
+    return len(ratios) > 1
+
+
+def pairwise_indices_vs_merged(p, q, order_p, order_q, dpos, qpos, n_valid, addends, mask, ctxbase, rep, fails,
+                               squared):
+    """`pairwise_indices` (default alpha, only_larger) of a subtotal COLUMN vs the merged category:
+    which body columns (not addends) the subtotal column is significantly larger than, and in which body
+    columns' sets the subtotal column appears.  Cells whose p-value sits on the threshold / whose
+    t-statistic sits on zero are skipped, like rows the cat-date finding covers."""
+    a, b = impl.get(p, "pairwise_indices"), impl.get(q, "pairwise_indices")
+    ctx = {"oracle": "merge", "measure": "pairwise_indices", "part": "slice"}
+    if a[0] != "ok" or b[0] != "ok":
+        if a[0] != b[0]:
+            fails.append(("merge oracle: pairwise_indices raises on one side", dict(ctxbase, a=a[:3], b=b[:3]), ctx))
+        return
+    ia, ib = a[1], b[1]
+    if ia is None or ib is None:
+        if (ia is None) != (ib is None):
+            fails.append(("merge oracle: pairwise_indices is None on one side", dict(ctxbase), ctx))
+        return
+    nrows = len(order_p[0])
+    if len(ia) != nrows or len(ib) != nrows:
+        fails.append(("merge oracle: pairwise_indices has another number of rows than the slice",
+                      dict(ctxbase, rows=nrows, subtotal_side=len(ia), merged_side=len(ib)), ctx))
+        return
+    others = [j for j in range(n_valid) if j not in addends]
+    pos_p = {j: order_p[1].index(j) for j in others}
+    pos_q = {j: order_q[1].index(j) for j in others}
+
+    def settled(part, sel, row, col):
+        """is the decision 'col in pairwise_indices[row][sel]' away from its thresholds?"""
+        t, pv = impl.get(part, "pairwise_significance_t_stats", sel), impl.get(part, "pairwise_significance_p_vals", sel)
+        if t[0] != "ok" or pv[0] != "ok":
+            return False
+        x, y = float(np.asarray(t[1], float)[row, col]), float(np.asarray(pv[1], float)[row, col])
+        if math.isnan(x) or math.isnan(y):
+            return True
+        return abs(y - ALPHA) > 1e-9 and abs(x) > 1e-9
+
+    compared = 0
+    for i in range(nrows):
+        if i < len(mask) and mask[i]:
+            continue
+        # (1) the subtotal column selected: the body columns it is significantly larger than
+        got = sorted(j for j in others if pos_p[j] in tuple(ia[i][dpos]))
+        exp = sorted(j for j in others if pos_q[j] in tuple(ib[i][qpos]))
+        unsettled = [j for j in set(got) ^ set(exp)
+                     if not (settled(p, dpos, i, pos_p[j]) and settled(q, qpos, i, pos_q[j]))]
+        if unsettled:
+            rep.cov["skipped_near_threshold"] += 1
+        elif got != exp:
+            fails.append(("merge oracle: pairwise_indices of the subtotal column != merged category",
+                          dict(ctxbase, row=i, squared_weights=squared, subtotal_side_body_columns=got,
+                               merged_side_body_columns=exp, subtotal_cell=[int(x) for x in ia[i][dpos]],
+                               merged_cell=[int(x) for x in ib[i][qpos]]), ctx))
+            return
+        # (2) the subtotal column tested: does it appear in the set of body column j?
+        for j in others:
+            ga, gb = dpos in tuple(ia[i][pos_p[j]]), qpos in tuple(ib[i][pos_q[j]])
+            if ga == gb:
+                continue
+            if not (settled(p, pos_p[j], i, dpos) and settled(q, pos_q[j], i, qpos)):
+                rep.cov["skipped_near_threshold"] += 1
+                continue
+            fails.append(("merge oracle: pairwise_indices of body column %d lists the subtotal column, the merged "
+                          "table does not (or the reverse)" % j,
+                          dict(ctxbase, row=i, squared_weights=squared, body_column=j, subtotal_listed=ga,
+                               merged_listed=gb), ctx))
+            return
+        compared += 1
+    if compared:
+        rep.dist("oracle_pairwise_indices_compared" + (":squared_weights" if squared else ""))
+
+
 def oracle(case, sv, io, rep, fails, max_per_dim=2):
     p = io["part"]
     ndim = io["ndim"]
@@ -970,13 +1124,23 @@ def oracle(case, sv, io, rep, fails, max_per_dim=2):
                             mismatch(name, "%s with the subtotal column selected, column %d" % (name, j), ca_, cb_)
                             break
                     others = [j for j in range(n_valid) if j not in s[0]]
-                    if others:
-                        j = others[0]
+                    # the subtotal column TESTED against a selected body column (every one of them where the
+                    # response carries squared weights: the effective base of the tested column is in play)
+                    for j in others[:(4 if case.get("squared") else 1)]:
                         a, b = impl.get(p, name, order_p[1].index(j)), impl.get(q, name, order_q[1].index(j))
                         if a[0] == "ok" and b[0] == "ok":
                             ca_ = np.asarray(a[1], float)[:, dpos].tolist()
                             cb_ = np.asarray(b[1], float)[:, qpos].tolist()
                             mismatch(name, "%s of the subtotal column against column %d" % (name, j), ca_, cb_)
+                        elif a[0] != b[0]:
+                            fails.append(("merge oracle: %s(tested subtotal) raises on one side" % name,
+                                          dict(ctxbase, a=a[:3], b=b[:3]), {"oracle": "merge", "measure": name, "part": "slice"}))
+                if case.get("squared"):
+                    rep.dist("oracle_pairwise_on_effective_base(squared weights):subtotal_column_selected_and_tested")
+                    if addend_ratios_differ(sv, alias, positions):
+                        rep.dist("oracle_pairwise_on_effective_base:addend_columns_differ_in_sum_w/sum_w2")
+                pairwise_indices_vs_merged(p, q, order_p, order_q, dpos, qpos, n_valid, s[0], mask, ctxbase, rep, fails,
+                                           bool(case.get("squared")))
 
 
 # ------------------------------------------------------------------------------------
@@ -1086,6 +1250,9 @@ def evaluate(cases, rep, tag="cases", do_oracle=True):
             rep.dist("has_intersections")
         if case["valid_counts"]:
             rep.dist("valid_counts=%s" % case["valid_counts"])
+        if case.get("squared"):
+            rep.dist("squared_weights(weighted_squared_count in the response, per-column weight palettes, "
+                     "sum-only column subtotals)")
         for alias, spec in case["ins"].items():
             rep.dist("insertions_in_" + ("transforms" if spec.get("transforms") is not None else "view"))
         for axis, ph in enumerate(io.get("phantom", [])):
@@ -1117,6 +1284,9 @@ def run(tier, seed):
     n_cases = 260 if tier == "quick" else 3600
     rng = random.Random(seed)
     cases = [gen_case(rng, k) for k in range(n_cases)]
+    # squared-weight stream (drawn after the main stream, which is therefore unchanged)
+    n_sq = 40 if tier == "quick" else 400
+    cases += [gen_sq_case(rng, n_cases + k) for k in range(n_sq)]
     coq_s, nterms = evaluate(cases, rep)
     rep.cov["rule"] = (
         "random.Random(seed): surveys (0-40 respondents, dyadic weights incl. 0, missing categories anywhere, MR "
@@ -1130,7 +1300,12 @@ def run(tier, seed):
         "top / bottom / valid id / stale / None / odd spelling, with and without ids, ~12% dicts the gauntlet must "
         "reject (non-dict, other function, hide, no name / anchor, empty, all stale); optional numeric measures "
         "(mean / sum / stddev / median) with no / both / unweighted-only valid counts; non-trivial = at least one "
-        "valid subtotal on a non-empty table; distinct by content hash")
+        "valid subtotal on a non-empty table; distinct by content hash.  PLUS the squared-weight stream (40 quick / "
+        "400 thorough): weighted CAT|MR x CAT surveys of 24-80 respondents whose response also carries "
+        "weighted_squared_count, every column's respondents weighted from that column's own dyadic palette (so "
+        "sum w / sum w^2 differs between the addends), 1-2 sum-only subtotals of 2-3 addends on the columns (view or "
+        "transforms), 40% also one on categorical rows; merge oracle incl. pairwise t / p (subtotal column selected, "
+        "and tested against every body column) and pairwise_indices")
     rep.cov["coq_eval_seconds"] = round(coq_s, 2)
     rep.cov["model_terms_evaluated"] = nterms
     rep.assumptions = [
